@@ -5,12 +5,21 @@ parameters, wire reads, fresh randomness); joins of different terms give an opaq
 whose sources are remembered for dependence queries.  Alongside the environment the analysis
 carries the set of *must facts*: normalised branch conditions that hold on every path to a node.
 """
+import re
 from .cfg import CFG
 
 LEAF = {'int', 'str', 'this', 'param', 'wire', 'sym', 'iv', 'phi', 'local', 'glob', 'bool', 'null', 'rand', 'new',
         'float', 'thisobj'}
 COMM = {'add', 'mul', 'gcd', '+', '*', '&', '|', '^', '&&', '||', '==', '!='}
 
+
+FILL_CTOR = re.compile(r'std::(vector|basic_string)<.*>::(vector|basic_string)\((unsigned long|size_type)[,)]')
+
+
+def is_owner_get(e):
+    o = e.get('o')
+    return e.get('k') == 'mcall' and e['f'].split('::')[-1] == 'get' and not e.get('a') and isinstance(o, dict) and \
+        ('unique_ptr<' in o.get('t', '') or 'shared_ptr<' in o.get('t', ''))
 
 class Terms:
     def __init__(self):
@@ -239,6 +248,7 @@ GMP_PURE = {
     'mpz_get_ui': 'get_ui', 'mpz_get_si': 'get_ui', 'mpz_tstbit': 'tstbit', 'mpz_congruent_p': 'congruent',
     'mpz_divisible_p': 'divisible', 'mpz_fits_ulong_p': 'fits_ulong', 'mpz_fits_slong_p': 'fits_slong',
     'mpz_fits_uint_p': 'fits_uint', 'mpz_perfect_square_p': 'is_square', 'mpz_size': 'limbs',
+    'mpz_fdiv_ui': 'mod',
 }
 RANDOM_DST = {'tmcg_mpz_srandomb', 'tmcg_mpz_srandomm', 'tmcg_mpz_ssrandomb', 'tmcg_mpz_ssrandomm', 'tmcg_mpz_wrandomb',
               'tmcg_mpz_wrandomm', 'tmcg_mpz_ssrandomm_cache', 'tmcg_mpz_srandomm_cache'}
@@ -269,6 +279,7 @@ class Analysis:
         self.head_entry = {}
         self.loop_nodes = {}
         self.alloc_size = {}
+        self.fill_size = {}
         self.octets = set()
         self._guards = []
         self._rec = None
@@ -318,6 +329,9 @@ class Analysis:
             return self.loc(e['e'], st)
         if k == 'this':
             return ('thisobj',)
+        if k == 'mcall' and is_owner_get(e):
+            # p.get() of an owning smart pointer names the buffer the pointer variable stands for
+            return self.loc(e['o'], st)
         return None
 
     def alias_target(self, v, init, st):
@@ -463,6 +477,10 @@ class Analysis:
             return self.rel('!=' if pol else '==', n[1], T.int(0))
         if n[0] == 'bool':
             return T.mk('bool', bool(n[1]) == pol)
+        if n[0] == 'mc' and isinstance(n[1], str) and n[1].startswith('std::') and n[1].endswith('::empty') and len(n) == 3:
+            # c.empty() is c.size() < 1
+            sz = T.mk('mc', n[1][:-len('empty')] + 'size', n[2])
+            return self.rel('<' if pol else '>=', sz, T.int(1))
         if n[0] in ('truthy', 'falsy'):
             # a stored verdict (bool b = (x & 1) != 0) tested later
             keep = (n[0] == 'truthy') == pol
@@ -526,7 +544,14 @@ class Analysis:
             args = tuple(self.ev_arg(a, st, nid) for a in e['a'])
             self.event(nid, ('ctor', e['f'], args, e.get('l', 0), e.get('fid', '')))
             self.call_effects(e, e['a'], args, st, nid, e.get('fid', ''))
-            return T.mk('ctor', e['f'], *args)
+            if len(args) == 1 and e['f'].split('<')[0] in ('std::unique_ptr', 'std::shared_ptr') and e['a'][0].get('k') in ('new', 'cast'):
+                # an owning pointer constructed from a new-expression stands for that block
+                return args[0]
+            t = T.mk('ctor', e['f'], *args)
+            if args and FILL_CTOR.match(e.get('fid', '')):
+                # vector(n, value): a container of exactly n elements
+                self.fill_size[t] = args[0]
+            return t
         if k == 'init':
             return T.mk('init', *[self.ev(a, st, nid) for a in e['a']])
         if k == 'new':
@@ -749,6 +774,10 @@ class Analysis:
                 val = vals[0]
             elif op in COMM:
                 val = T.mk(op, *sorted(vals))
+            elif op == 'shl' and T.is_int(vals[0], 1):
+                val = T.mk('pow', T.int(2), vals[1])        # 1 << n is 2^n
+            elif op == 'powm' and len(vals) == 3 and T.is_int(vals[1], 2):
+                val = T.mk('mod', T.mk('mul', vals[0], vals[0]), vals[2])     # x^2 mod m is (x*x) mod m
             else:
                 val = T.mk(op, *vals)
             if op in ('mod', 'powm', 'div', 'rem'):
@@ -768,6 +797,17 @@ class Analysis:
             l = self.loc(aex[0], st)
             self.write(l, val, st)
             self.event(nid, ('write', l, val, line))
+            self.event(nid, ('call', f, tuple(args), line, fid))
+            return T.mk('sym', 'void')
+        if f in ('mpz_fdiv_qr', 'mpz_tdiv_qr') and len(aex) == 4:
+            # quotient and remainder of one division
+            args = [self.ev(a, st, nid) for a in aex]
+            self.event(nid, ('modulus', args[3], f, line))
+            for i, op in ((0, 'div'), (1, 'mod' if f == 'mpz_fdiv_qr' else 'rem')):
+                l = self.loc(aex[i], st)
+                val = T.mk(op, args[2], args[3])
+                self.write(l, val, st)
+                self.event(nid, ('write', l, val, line))
             self.event(nid, ('call', f, tuple(args), line, fid))
             return T.mk('sym', 'void')
         if f == 'mpz_swap' and len(aex) == 2:
@@ -877,6 +917,8 @@ class Analysis:
         ol = self.loc(o, st) if isinstance(o, dict) else None
         self.event(nid, ('mcall', f, ov, args, line, fid, ol))
         ot = o.get('t', '') if isinstance(o, dict) else ''
+        if is_owner_get(e):
+            return ov
         if is_stream_type(ot) or is_stream_type(f):
             if short in ('good', 'fail', 'eof', 'bad', 'str', 'rdbuf', 'peek', 'tellg', 'gcount', 'operator bool'):
                 return T.mk('mc', short, self.read(('stream', ol), st) if ol else ov)
